@@ -12,7 +12,7 @@ of each interception are mirror images).
 import ast
 
 from ..report import Result, Finding
-from ..loader import walk_own, norm, AnalysisError
+from ..loader import walk_own, norm, AnalysisError, expand_locals
 from ..flow import State
 from . import recmodel as rm
 from . import c02
@@ -311,7 +311,7 @@ def is_decode_encode(pc):
     if not rets:
         return False, 'no return'
     for r in rets:
-        v = r.value
+        v = expand_locals(pc.node, r.value) if r.value is not None else None
         if not (isinstance(v, ast.Call) and isinstance(v.func, ast.Name) and v.func.id == 'decode' and v.args and
                 isinstance(v.args[0], ast.Call) and isinstance(v.args[0].func, ast.Name) and v.args[0].func.id == 'encode' and
                 v.args[0].args and isinstance(v.args[0].args[0], ast.Name) and v.args[0].args[0].id == p):
